@@ -209,7 +209,7 @@ def run_build(case, base, tmpdir):
 
     empty = dict(diff={}, gone=[])
     # normalising the re-loaded file once more is observed for every family except the two largest
-    obs = dict(raised="", stage="", c0=empty, n1=empty, n2=empty, ls=empty, nl=empty,
+    obs = dict(raised="", stage="", c0=empty, c0b=empty, n1=empty, n2=empty, ls=empty, nl=empty,
                has_nl=case.get("fam") not in ("pair", "auglistprod"))
     stage = "get_data_config"
     try:
@@ -223,6 +223,16 @@ def run_build(case, base, tmpdir):
         stage = "to_sleap_nn_cfg"
         c0 = job.to_sleap_nn_cfg()
         obs["c0"] = diff(flat_cfg(c0), base)
+        # the same argument objects once more (the same head / backbone / scheduler dict used for a second configuration,
+        # as in a sweep): every call places what the caller supplies (seed C20_r11)
+        stage = "second_call_get_data_config"
+        d2 = T.get_data_config(**dkw)
+        stage = "second_call_get_model_config"
+        m2 = T.get_model_config(**mkw)
+        stage = "second_call_get_trainer_config"
+        t2 = T.get_trainer_config(**tkw)
+        stage = "second_call_to_sleap_nn_cfg"
+        obs["c0b"] = diff(flat_cfg(TrainingJobConfig(data_config=d2, model_config=m2, trainer_config=t2).to_sleap_nn_cfg()), base)
         stage = "verify_training_cfg"
         n1 = verify_training_cfg(c0)
         obs["n1"] = diff(flat_cfg(n1), base)
